@@ -64,7 +64,7 @@ Inductive light := L2 | L3 | L4.
 Definition light_n (l : light) : Z := match l with L2 => 2 | L3 => 3 | L4 => 4 end.
 Inductive cc_kind :=
 | K32Std (callee_pops : bool) | K32Light (n : light)
-| K64SysV | K64Win (spill : bool (* true: vectorcall, 48 bytes *)) | K64Light (n : light)
+| K64SysV | K64Win (vectorcall : bool) | K64Light (n : light)
 | KA64Cdecl | KA64Other.
 
 Definition light_of (ccid : Z) : option light :=
@@ -106,7 +106,8 @@ Definition cc_of_kind (k : cc_kind) : callconv :=
     mkcc 16 0 0 false (mkq (clear_bit (lsb_mask 8) 4) (Z.ldiff (lsb_mask 8) (lsb_mask (light_n l))) 0 0) (x86_sr_size 4) (x86_sr_size 4)
   | K64SysV => mkcc 16 128 0 false (mkq (mask_of [3; 5; 12; 13; 14; 15]) 0 0 0) (x86_sr_size 8) (x86_sr_size 8)
   | K64Win vc =>
-    mkcc 16 0 (if vc then 48 else 32) false
+    (* /repo 8e420e4: the home area of vectorcall is 32 bytes like Win64 (was 6*8) *)
+    mkcc 16 0 (if vc then 32 else 32) false
          (mkq (mask_of [3; 5; 6; 7; 12; 13; 14; 15]) (mask_of [6; 7; 8; 9; 10; 11; 12; 13; 14; 15]) 0 0) (x86_sr_size 8) (x86_sr_size 8)
   | K64Light l =>
     mkcc 16 0 0 false (mkq (clear_bit (lsb_mask 16) 4) (Z.ldiff (lsb_mask 32) (lsb_mask (light_n l))) 0 0) (x86_sr_size 8) (x86_sr_size 8)
@@ -243,6 +244,11 @@ Definition finalize (f : frame_in) : frame_out :=
   mkfo avsr has_da (fin_sa f) sal (fin_dirty f) (callee_cleanup f) pp ex local_off extra_off da_off pp_off adj fin
        (if has_da then -1 else v)
        (if has_fp && negb (fi_sa_fix f && has_link_reg a) then ras + rs else ras + pp).
+
+(* proposed refusal (fixes/C07-a64-refuse-unrealisable-frames.patch): finalize returns kInvalidState for AArch64 frames that need
+   dynamic stack alignment or vector saves wider than 8 bytes — what a64 emit_prolog/emit_epilog cannot realise *)
+Definition a64_realisable (f : frame_in) : bool :=
+  negb (fin_has_da f) && ((qget (cc_srsize (fi_cc f)) 1 <=? 8) || (fin_saved f 1 =? 0)).
 
 Definition saved_regs (f : frame_in) (o : frame_out) (g : Z) : Z :=
   Z.land (qget (fo_dirty o) g) (qget (cc_preserved (fi_cc f)) g).
